@@ -15,6 +15,7 @@
 #include <setjmp.h>
 #include <stdint.h>
 #include <unistd.h>
+#include <dlfcn.h>
 #include "turbojpeg.h"
 #include "jpeglib.h"
 #include "jerror.h"
@@ -35,6 +36,16 @@ static int tracking;
 static int plan_mode;            /* 0 none, 1 at k1, 2 from k1, 3 pair k1,k2 */
 static long plan_k1, plan_k2;
 static size_t biggest;
+
+/* direct (non-pool) allocation calls per calling function (dladdr on the return address; linked with -rdynamic) */
+static struct { const char *name; int n; } sites[64]; static int nsites;
+static void site(void *ra)
+{
+  Dl_info di; const char *nm = "?"; int i;
+  if (dladdr(ra, &di) && di.dli_sname) nm = di.dli_sname;
+  for (i = 0; i < nsites; i++) if (!strcmp(sites[i].name, nm)) { sites[i].n++; return; }
+  if (nsites < 64) { sites[nsites].name = nm; sites[nsites].n = 1; nsites++; }
+}
 
 static int should_fail(void)
 {
@@ -68,6 +79,7 @@ void *__wrap_malloc(size_t sz)
   void *p;
   if (!tracking) return __real_malloc(sz);
   if (in_app) { p = __real_malloc(sz ? sz : 1); if (p) note(p, sz); return p; }   /* the application's own buffers never fail */
+  site(__builtin_return_address(0));
   if (should_fail()) return NULL;
   if (sz > ((size_t)1 << 31)) return NULL;          /* never really grab > 2 GB */
   p = __real_malloc(sz ? sz : 1);
@@ -977,7 +989,7 @@ static void run_scn(const scn_t *s, const char *mode, long k1, long k2)
   int rc, i; long leakbytes = 0; char firstleak[64] = "";
   plan_mode = !strcmp(mode, "at") ? 1 : !strcmp(mode, "from") ? 2 : !strcmp(mode, "pair") ? 3 : 0;
   plan_k1 = k1; plan_k2 = k2;
-  nblk = 0; alloc_idx = 0; badfree = 0; peak = 0; cur = 0; biggest = 0; msgbuf[0] = 0; stolen = 0; badptr = 0; in_app = 0;
+  nblk = 0; alloc_idx = 0; badfree = 0; peak = 0; cur = 0; biggest = 0; msgbuf[0] = 0; stolen = 0; badptr = 0; in_app = 0; nsites = 0;
   printf("begin %s %s %ld %ld\n", s->name, mode, k1, k2);
   scn_arg = s->arg;
   tracking = 1;
@@ -988,6 +1000,11 @@ static void run_scn(const scn_t *s, const char *mode, long k1, long k2)
   for (i = 0; msgbuf[i]; i++) if (msgbuf[i] == '\n' || msgbuf[i] == '|') msgbuf[i] = ' ';
   printf("result %s %s %ld %ld rc=%d n=%ld live=%d leakbytes=%ld firstleak=%s badfree=%ld peak=%ld stolen=%ld badptr=%ld | %s\n",
          s->name, mode, k1, k2, rc, alloc_idx, nblk, leakbytes, nblk ? firstleak : "-", badfree, peak, stolen, badptr, msgbuf);
+  if (plan_mode == 0) {
+    printf("sites %s", s->name);
+    for (i = 0; i < nsites; i++) printf(" %s=%d", sites[i].name, sites[i].n);
+    printf("\n");
+  }
   for (i = 0; i < nblk; i++) __real_free(blks[i].p);
   nblk = 0;
 }
